@@ -391,6 +391,93 @@ def custom_registry_cycles():
   return out
 
 
+def custom_registry_streams():
+  """Every traversal honours the registry it was given: a node type known only to that registry is
+  traversed, its descendants are reported (un-memoized and memoized iterate, collect_paths_by_id)."""
+  reg = daglish.NodeTraverserRegistry(use_fallback=True)
+  reg.register_node_traverser(Box, flatten_fn=lambda b: ((b.inner,), None),
+                              unflatten_fn=lambda v, _: Box(v[0]),
+                              path_elements_fn=lambda b: (daglish.Attr('inner'),))
+  inner = [1, [2]]
+  root = [Box(inner), {'k1': Box([3, Box(inner)])}]
+  exp, exp_inner = [], []
+  def walk(x, path):
+    exp.append(daglish.path_str(path))
+    if x is inner:
+      exp_inner.append(daglish.path_str(path))
+    if isinstance(x, Box):
+      walk(x.inner, path + (daglish.Attr('inner'),))
+    elif isinstance(x, list):
+      for i, y in enumerate(x):
+        walk(y, path + (daglish.Index(i),))
+    elif isinstance(x, dict):
+      for k, y in x.items():
+        walk(y, path + (daglish.Key(k),))
+  walk(root, ())
+  out = []
+  got = sorted(daglish.path_str(p) for _, p in daglish.iterate(root, memoized=False, registry=reg))
+  if got != sorted(exp):
+    out.append(({'clause': 'custom-registry-paths', 'api': 'iterate-basic'},
+                f'un-memoized iterate with its own registry reported {len(got)} of {len(exp)} paths: {got}'))
+  memo = [(v, p) for v, p in daglish.iterate(root, memoized=True, registry=reg)]
+  if any(daglish.path_str(p) not in exp for _, p in memo) or not any(v is inner for v, _ in memo):
+    out.append(({'clause': 'custom-registry-paths', 'api': 'iterate-memoized'},
+                f'memoized iterate with its own registry: {[daglish.path_str(p) for _, p in memo]}'))
+  by_id = daglish.collect_paths_by_id(root, memoizable_only=True, registry=reg)
+  got_inner = sorted(daglish.path_str(p) for p in by_id.get(id(inner), []))
+  if got_inner != sorted(exp_inner):
+    out.append(({'clause': 'custom-registry-paths', 'api': 'collect_paths_by_id'},
+                f'paths of the shared list: {got_inner}, expected {exp_inner}'))
+  return out
+
+
+def posgap(a=1, b=2, /, c=3, *rest, k=0):
+  return (a, b, c, rest, k)
+
+
+def positional_gap_scenarios():
+  """Positional Buildable arguments whose cells are not a gap-free prefix: paths stay sound."""
+  out = []
+  def mk(kind):
+    x, y, z, w = [1], [2], [3], [4]
+    if kind == 'unset-before-set':
+      c = fdl.Config(posgap)
+      c[1] = y
+      vals = [y]
+    elif kind == 'first-deleted':
+      c = fdl.Config(posgap, x, y, z, w)
+      del c[0]
+      vals = [y, z, w]
+    else:   # a positional-or-keyword parameter back at its default below *args
+      c = fdl.Config(posgap, x, y, z, w, [5])
+      del c.c
+      vals = [x, y, w]
+    return c, vals
+  for kind in ('unset-before-set', 'first-deleted', 'default-below-varargs'):
+    for api in ('basic', 'memoized', 'by-id'):
+      c, vals = mk(kind)
+      root = [c, {'k1': c}]
+      try:
+        if api == 'by-id':
+          by_id = daglish.collect_paths_by_id(root, memoizable_only=True)
+          pairs = [(v, p) for v in vals for p in by_id.get(id(v), [])]
+          complete = all(len(by_id.get(id(v), [])) == 2 for v in vals)
+        else:
+          allp = list(daglish.iterate(root, memoized=(api == 'memoized')))
+          pairs = [(v, p) for v, p in allp if any(v is x for x in vals)]
+          complete = all(any(v is x for v, _ in pairs) for x in vals)
+        sound = all(daglish.follow_path(root, p) is v for v, p in pairs)
+      except Exception as e:  # pylint: disable=broad-except
+        out.append(({'clause': 'positional-gap-paths', 'shape': kind, 'api': api, 'observed': type(e).__name__},
+                    f'{type(e).__name__}: {str(e)[:200]}'))
+        continue
+      if not (sound and complete):
+        out.append(({'clause': 'positional-gap-paths', 'shape': kind, 'api': api,
+                     'observed': 'unsound' if not sound else 'incomplete'},
+                    f'{[(daglish.path_str(p)) for _, p in pairs]}'))
+  return out
+
+
 class Span:
   """Node whose flatten creates fresh primitive leaves (big ints, strings, floats)."""
 
@@ -534,7 +621,8 @@ def main():
       raise common.MachineryError('Trace_C08 accepted a stream with a missing pair')
     accepted = validate_records(v, recs, os.path.join(wd, 'c2s'))
     cyc, ncyc = cycle_scenarios()
-    for f, msg in cyc + temporaries_scenarios() + custom_registry_cycles() + primitive_temporaries():
+    for f, msg in (cyc + temporaries_scenarios() + custom_registry_cycles() + primitive_temporaries()
+                   + custom_registry_streams() + positional_gap_scenarios()):
       v.mismatch(f, {'message': msg})
   v.coverage.update({
       'states': res.distinct, 'transitions': res.generated,
